@@ -14,6 +14,9 @@ structure NestedSut (V VOp : Type) where
   showOp : VOp → String
   state : V → String
   read : V → String
+  /-- serde representation of the nested value and of its op (C19) -/
+  codec : Codec V
+  opCodec : Codec VOp
 
 def commas (s : String) : String := s.replace " " ","
 
@@ -33,6 +36,8 @@ def nestedMV : NestedSut (MVReg Nat Nat) (MVOp Nat Nat) where
   showOp := showMVOp
   state := fun v => showMVVals v.vals
   read := fun v => let r := v.read; showSortedNats r.val ++ "@" ++ showCtx' r
+  codec := mvregCodec natK natC
+  opCodec := mvOpCodec natK natC
 
 def isOk {ε α : Type} : Except ε α → Bool
   | .ok _ => true
@@ -52,6 +57,8 @@ def nestedOR : NestedSut OS OOp where
   showOp := showOrswotOp
   state := fun v => "<" ++ commas (showOrswotState v) ++ ">"
   read := fun v => let r := v.read; showNats r.val ++ "@" ++ showCtx' r
+  codec := orswotCodec natS natS
+  opCodec := orswotOpCodec natS natS
 
 section
 variable {V VOp : Type}
@@ -127,6 +134,8 @@ def nestedMap (N : NestedSut V VOp) : NestedSut (MapT V) (MapOpT VOp) where
   showOp := mapShowOp N
   state := fun v => "<" ++ commas (mapState N v) ++ ">"
   read := fun v => commas (mapReads N v)
+  codec := mapCodec natS natS N.codec
+  opCodec := mapOpCodec natS natS N.opCodec
 
 def showMapV : Except MapOpValidation Unit → String
   | .ok _ => "ok"
@@ -166,6 +175,8 @@ def mapOps (N : NestedSut V VOp) : CrdtOps (MapT V) (MapOpT VOp) where
   validateMerge := fun s o => showMapMV (CMap.validateMerge N.ops s o)
   resetRemove := some (CMap.resetRemove N.ops)
   eq := some (CMap.eq N.ops)
+  persist := some (persistWith (mapCodec natS natS N.codec))
+  persistOp := some (persistWith (mapOpCodec natS natS N.opCodec))
   opDot := fun op => match op with
     | .up d _ _ => some (showDot d)
     | .rm _ _ => none
